@@ -115,6 +115,7 @@ func Generate(r *rand.Rand, k Knobs) *Scenario {
 	if pct(k.PrefixPct) {
 		s.Prefix = prefixPool[r.Intn(len(prefixPool))]
 	}
+	s.NoFormat = r.Intn(6) == 0 // gofmt can repair or hide what the raw rendering gets wrong
 	addPath := func(p string, std bool) int {
 		if p == "" || used[p] {
 			return -1
@@ -270,6 +271,9 @@ func Generate(r *rand.Rand, k Knobs) *Scenario {
 				}
 				s.Refs = append(s.Refs, Ref{Path: i, Ctx: ctx})
 			}
+			if pct(k.AnonPct/2) && s.Paths[i].Path != "C" {
+				anon[i] = true // Anon(p) and references to p: the anonymous import is upgraded to a named one
+			}
 		} else if pct(k.AnonPct * 3) {
 			anon[i] = true
 		}
@@ -341,7 +345,7 @@ func (s *Scenario) AnonSet() map[string]bool {
 
 func (s *Scenario) String() string {
 	var b strings.Builder
-	fmt.Fprintf(&b, "%s(%q,%q) prefix=%q", s.Ctor, s.LocalPath, s.PkgName, s.Prefix)
+	fmt.Fprintf(&b, "%s(%q,%q) prefix=%q noformat=%v", s.Ctor, s.LocalPath, s.PkgName, s.Prefix, s.NoFormat)
 	for _, h := range s.Hints {
 		if h.Op == "ImportNames" {
 			fmt.Fprintf(&b, " ImportNames(%v)", h.Names)
